@@ -13,7 +13,9 @@ def universe():
             GenericValue(list, [TypedValue(int)]), SequenceValue(tuple, [(False, TypedValue(int)), (True, TypedValue(str))]),
             SubclassValue(TypedValue(int)), AnyValue(AnySource.explicit),
             TypedDictValue({"a": TypedDictEntry(TypedValue(int))}), TypedDictValue({"b": TypedDictEntry(TypedValue(str))})]
-    unions = [MultiValuedValue([base[0], base[2]]), MultiValuedValue([base[5], base[6], base[0]]), NO_RETURN_VALUE, MultiValuedValue([base[11], base[5]]),
+    ext2 = CustomCheckExtension(CustomCheck())
+    unions = [AnnotatedValue(MultiValuedValue([AnnotatedValue(base[5], [ext2]), base[6]]), [ext]),
+              MultiValuedValue([base[0], base[2]]), MultiValuedValue([base[5], base[6], base[0]]), NO_RETURN_VALUE, MultiValuedValue([base[11], base[5]]),
               AnnotatedValue(MultiValuedValue([base[5], base[2]]), [ext]), AnnotatedValue(base[5], [ext])]
     return base + unions
 
@@ -73,15 +75,62 @@ def _hash_eq(x, y):
         return False
 
 
+def search_subst():
+    """substitution: identity on values without type variables, replaces every occurrence, commutes with uniting"""
+    from typing import TypeVar
+    from pyanalyze.value import (AnnotatedValue, GenericValue, KnownValue, MultiValuedValue, SequenceValue, SubclassValue, TypedValue, TypeVarValue,
+                                 TypedDictValue, TypedDictEntry, DictIncompleteValue, KVPair, unite_values)
+    T, U = TypeVar("T"), TypeVar("U")
+    tv, uv = TypeVarValue(T), TypeVarValue(U)
+    closed = universe() + [SubclassValue(TypedValue(int), exactly=True), SubclassValue(TypedValue(str)),
+                           TypedDictValue({"a": TypedDictEntry(TypedValue(int), required=False, readonly=True)}, extra_keys=TypedValue(str), extra_keys_readonly=True),
+                           DictIncompleteValue(dict, [KVPair(KnownValue("k"), TypedValue(int), is_required=False)]),
+                           SequenceValue(list, [(True, TypedValue(int))])]
+    maps = [{}, {T: TypedValue(int)}, {T: TypedValue(str), U: KnownValue(1)}]
+    for v in closed:
+        for m in maps:
+            r = v.substitute_typevars(m)
+            if not (r == v) or str(r) != str(v):
+                return f"substitute_typevars({m}) is not the identity on {v!r} (no type variables): got {r!r}"
+    opened = [tv, GenericValue(list, [tv]), SequenceValue(tuple, [(False, tv), (True, uv)]), MultiValuedValue([tv, TypedValue(int)]),
+              SubclassValue(tv, exactly=True), SubclassValue(tv), AnnotatedValue(tv, [uv]), GenericValue(dict, [tv, uv]),
+              TypedDictValue({"a": TypedDictEntry(tv, required=False)}), DictIncompleteValue(dict, [KVPair(tv, uv, is_required=False)])]
+    m = {T: TypedValue(int), U: TypedValue(str)}
+    for v in opened:
+        r = v.substitute_typevars(m)
+        if any(isinstance(w, TypeVarValue) for w in r.walk_values()):
+            return f"substitute_typevars left a type variable in {r!r} (from {v!r})"
+        if type(r) is not type(v) and not isinstance(v, (TypeVarValue, MultiValuedValue)):
+            return f"substitute_typevars changed the kind of {v!r}: {r!r}"
+        for attr in ("exactly", "extra_keys_readonly"):
+            if hasattr(v, attr) and hasattr(r, attr) and getattr(v, attr) != getattr(r, attr):
+                return f"substitute_typevars changed .{attr} of {v!r}: {r!r}"
+    for a, b in itertools.product(opened[:6], repeat=2):
+        lhs = unite_values(a, b).substitute_typevars(m)
+        rhs = unite_values(a.substitute_typevars(m), b.substitute_typevars(m))
+        if not same_set(leaves(lhs), leaves(rhs)):
+            return f"substitution does not commute with uniting for {a}, {b}: {lhs} vs {rhs}"
+    return None
+
+
 def r_c14(rec):
+    for fn in (search, search_subst):
+        msg = fn()
+        if msg:
+            return True, msg
+    return False, "union and substitution laws hold natively on the value universe"
+
+
+def _old_r_c14(rec):
     msg = search()
     if msg:
         return True, msg
     return False, "union laws hold natively on the value universe (16 values, all pairs, triples over 10)"
 
 
-REPLAYERS = {q: r_c14 for q in ("pyanalyze.value.unite_values", "pyanalyze.value.flatten_values", "pyanalyze.value.MultiValuedValue.__post_init__",
-                                "pyanalyze.value._is_unreachable", "pyanalyze.value.is_union")}
+REPLAYERS = {"C14.bounded": r_c14}
+REPLAYERS.update({q: r_c14 for q in ("pyanalyze.value.unite_values", "pyanalyze.value.flatten_values", "pyanalyze.value.MultiValuedValue.__post_init__",
+                                "pyanalyze.value._is_unreachable", "pyanalyze.value.is_union")})
 
 if __name__ == "__main__":
     print(search())
